@@ -58,7 +58,7 @@ func (k c16Case) String() string {
 var c16Families = []string{
 	"baseline", "extended8", "extended12", "lossless", "sv1", "jls", "jls-near",
 	"j2k-rev", "j2k-irr", "j2k-tiled", "j2k-layered", "j2k-prog", "j2k-precinct",
-	"htj2k-201", "htj2k-202", "htj2k-203", "rle",
+	"htj2k-201", "htj2k-202", "htj2k-203", "htj2k-direct", "rle",
 }
 
 func (k c16Case) bytesPerSample() int {
@@ -101,6 +101,12 @@ func (k c16Case) j2kParams() *jpeg2000.EncodeParams {
 	p.Lossless = k.Enc != "j2k-irr"
 	if !p.Lossless {
 		p.Quality = k.Quality
+	}
+	if k.Enc == "htj2k-direct" {
+		// jpeg2000.EncodeParams with the exported HTJ2K switches (what htj2k.Codec sets), plus tiles
+		p.HTJ2KMode = true
+		p.ProgressionOrder = 2
+		p.BlockEncoderFactory = func(w, h int) jpeg2000.BlockEncoder { return htj2k.NewHTEncoder(w, h) }
 	}
 	return p
 }
@@ -291,6 +297,18 @@ func genC16(r *Rand, fam string, thor bool) c16Case {
 		k.MCT = r.Bool()
 		k.Quality = r.Pick(1, 20, 50, 80, 95, 100)
 		switch fam {
+		case "htj2k-direct":
+			k.Signed = false
+			k.P = r.Pick(8, 8, 12, 16)
+			k.Prog = 2
+			nx, ny := r.Range(1, 4), r.Range(1, 4)
+			if k.W < nx {
+				k.W = nx + r.Intn(20)
+			}
+			if k.H < ny {
+				k.H = ny + r.Intn(20)
+			}
+			k.TW, k.TH = (k.W+nx-1)/nx, (k.H+ny-1)/ny
 		case "j2k-tiled":
 			// tile grids up to 64 tiles
 			nx, ny := r.Range(1, 8), r.Range(1, 8)
@@ -463,7 +481,7 @@ func c16Check(c *Ctx, k c16Case, stream []byte) [][2]string {
 				add("header:subsampling", "SIZ declares XRsiz/YRsiz "+f[1]+"/"+f[2])
 			}
 		}
-		ht := strings.HasPrefix(k.Enc, "htj2k")
+		ht := strings.HasPrefix(k.Enc, "htj2k") && k.Enc != "htj2k-direct"
 		lossless := k.Enc != "j2k-irr" && k.Enc != "htj2k-203"
 		wantT := 0
 		if lossless {
@@ -499,7 +517,7 @@ func c16Check(c *Ctx, k c16Case, stream []byte) [][2]string {
 		if k.CBW > 0 && (1<<fint(m, "xcb") != k.CBW || 1<<fint(m, "ycb") != k.CBH) {
 			add("header:codeblock", fmt.Sprintf("COD declares code-block 2^%s x 2^%s for %dx%d", m["xcb"], m["ycb"], k.CBW, k.CBH))
 		}
-		if ht && fint(m, "tlm") != 1 {
+		if strings.HasPrefix(k.Enc, "htj2k") && fint(m, "tlm") != 1 {
 			c.R.Count("c16.htj2k.no_tlm")
 		}
 	}
@@ -561,6 +579,12 @@ func runC16(c *Ctx) {
 			}
 		}
 	}
+	if c.Thor && c.ReplayInputs("c16") == nil {
+		// more tile-parts than one TLM segment can list (Ltlm is 16 bits: 10921 entries)
+		k := genC16(c.Rng.Fork(), "htj2k-direct", true)
+		k.W, k.H, k.TW, k.TH, k.Levels, k.Comps, k.P, k.Content = 106, 106, 1, 1, 0, 1, 8, 0
+		cases = append(cases, k)
+	}
 	ParallelFor(len(cases), c.Work, func(i int) {
 		k := cases[i]
 		pix := k.pixels()
@@ -599,8 +623,76 @@ func runC16(c *Ctx) {
 			return
 		}
 		c.R.Oracle("c16")
-		for _, b := range c16Check(c, k, out) {
+		viol := c16Check(c, k, out)
+		for _, b := range viol {
 			c.R.Fail("oracle", "c16", "c16:"+k.Enc+":"+b[0], b[1], k)
 		}
+		if len(viol) == 0 && i%3 == 0 && k.Enc != "rle" {
+			c16Sensitivity(c, k, out)
+		}
 	})
+}
+
+// c16Sensitivity: the walker must REJECT streams that are ill-formed by construction (so that
+// an accepting walker means something): one byte appended after the end marker, the last byte
+// dropped, the first segment's length field off by one, a marker code planted in the
+// entropy-coded / tile data just before the end marker, Psot of the first tile-part off by
+// one. A mutant that is accepted is reported as a correspondence failure of the model.
+func c16Sensitivity(c *Ctx, k c16Case, s []byte) {
+	op := "frm_j2k"
+	switch k.Enc {
+	case "baseline", "extended8", "extended12", "lossless", "sv1":
+		op = "frm_jpeg"
+	case "jls", "jls-near":
+		op = "frm_jls"
+	}
+	type mut struct {
+		name string
+		b    []byte
+	}
+	cp := func() []byte { return append([]byte(nil), s...) }
+	var ms []mut
+	ms = append(ms, mut{"append-byte", append(cp(), 0)})
+	ms = append(ms, mut{"drop-last", cp()[:len(s)-1]})
+	if op != "frm_j2k" {
+		m := cp()
+		m[5]++ // low byte of the first segment's length
+		ms = append(ms, mut{"seglen+1", m})
+		m = cp()
+		m[len(m)-4], m[len(m)-3] = 0xff, 0x01
+		if op == "frm_jls" {
+			m[len(m)-3] = 0x80
+		}
+		ms = append(ms, mut{"marker-in-scan", m})
+	} else {
+		m := cp()
+		m[len(m)-4], m[len(m)-3] = 0xff, 0x95
+		ms = append(ms, mut{"marker-in-tile", m})
+		// first SOT: Psot + 1
+		for i := 0; i+12 < len(s); i++ {
+			if s[i] == 0xff && s[i+1] == 0x90 && s[i+2] == 0 && s[i+3] == 10 {
+				m = cp()
+				m[i+9]++
+				ms = append(ms, mut{"psot+1", m})
+				m = cp()
+				m[i+3] = 11
+				ms = append(ms, mut{"lsot=11", m})
+				break
+			}
+		}
+		m = cp()
+		m[5]++ // Lsiz low byte
+		ms = append(ms, mut{"lsiz+1", m})
+	}
+	for _, mu := range ms {
+		rep := c.M.Call(op, hexOf(mu.b))
+		c.R.Corr("walker_rejects_mutant")
+		c.R.Count("c16.mutant." + mu.name)
+		if len(rep) >= 3 && rep[:3] == "ok:" {
+			c.R.Fail("corr", "walker_rejects_mutant", "walker-accepts:"+op+":"+mu.name,
+				"the walker accepts a stream that is ill-formed by construction", map[string]interface{}{"case": k, "mutation": mu.name})
+		} else {
+			c.R.Count("c16.mutant_reason." + badReason(rep))
+		}
+	}
 }
